@@ -363,5 +363,5 @@ def split_lines_on_column_gaps(text_region: pdm.PageXMLTextRegion,
                                                             column_ranges,
                                                             overlap_threshold)
     columns = make_column_range_columns(text_region, column_lines)
-    columns = handle_extra_lines(text_region, columns, extra_lines)
+    columns = handle_extra_lines(text_region, columns, extra_lines, gap_threshold=gap_threshold)
     return columns
